@@ -12,7 +12,7 @@ Cmds == {"array", "map", "set_new", "range", "array_push", "array_pop", "array_g
          "release", "json_parse", "json_encode", "split", "string_to_bytes", "bytes_to_string", "base64_encode", "base64_decode", "scope_push_stack", "scope_pop_stack",
          "set_by_name", "unset", "unset_all_vars", "get_all_var_names", "clear_scope", "exit_on_error", "trigger_error", "get_last_error", "alias", "unalias",
          "remove_command", "substring", "for", "end", "if", "else", "return", "goto", "eval", "not", "test_file", "temp_dir", "ls", "cat", "chmod", "env_to_map"}
-Pool == {"PREV", "L", "M", "S", "Y", "R", "B", "CL", "CM", "E", "0", "1", "-1", "5", "W", "MB", "SP", "QT", "COPY", "-r", "COLL", "VAR", "NOVAR", "F", "D", "JSON", "IN"}
+Pool == {"PREV", "L", "M", "S", "Y", "R", "B", "CL", "CM", "E", "0", "1", "-1", "5", "W", "MB", "SP", "QT", "COPY", "-r", "COLL", "VAR", "NOVAR", "F", "D", "JSON", "IN", "LF"}
 Args == {<<>>} \cup {<<x>> : x \in Pool} \cup {<<x, y>> : x \in Pool, y \in Pool} \cup {<<x, y, z>> : x \in {"PREV", "L", "M", "CL", "COLL", "COPY"}, y \in Pool, z \in {"E", "0", "W", "PREV"}}
 Init == seq = <<>> /\ id \in 1..NSeq
 Next == Len(seq) < D /\ seq' = Append(seq, [cmd |-> RandomElement(Cmds), args |-> RandomElement(Args)]) /\ UNCHANGED id
